@@ -150,3 +150,14 @@ Lemma w_resubmit_facts :
                {[new_key node_free 1; new_key node_free 2; new_key node_free 3; new_key node_free 4]}) = true /\
   s_free (run true true w_s0 w_resubmit) = 4.
 Proof. vm_compute. repeat split; reflexivity. Qed.
+
+(* F91: rename to the empty name with validation off (gateway path): upstream, the metadata row is
+   renamed before the engine refuses; the current tree rejects the request before writing *)
+Definition w_f91 : list op :=
+  [Create 1 [w_ch "v" 1 2 false 0 true 0] false false; Rename 1 [new_key 1 1] [""]].
+Lemma f91_unfixed : consistent_b (run false false w_s0 w_f91) = false.
+Proof. vm_compute. reflexivity. Qed.
+Lemma f91_fixed : consistent_b (run true false w_s0 w_f91) = true /\
+  (step true false (run true false w_s0 [Create 1 [w_ch "v" 1 2 false 0 true 0] false false])
+        (Rename 1 [new_key 1 1] [""])).2.1 = ENameRequired.
+Proof. vm_compute. auto. Qed.
